@@ -1,4 +1,7 @@
 #!/bin/bash
-# kill stray Engine-M runner processes (pattern kept in this file so callers' command lines never match)
-for p in $(pgrep -f "mirsmt/run_one\.py"); do kill $p 2>/dev/null; done
+# kill stray Engine-M debug runs started by tools/m1.sh (only those: they carry MIRSMT_VERBOSE in their environment);
+# with an argument: only the obligation of that name
+for p in $(pgrep -f "mirsmt/run_one\.py ${1:-}"); do
+  if tr '\0' '\n' < /proc/$p/environ 2>/dev/null | grep -q "^MIRSMT_VERBOSE="; then kill $p 2>/dev/null; fi
+done
 exit 0
